@@ -198,6 +198,9 @@ def hook(ex, func, argv, frame):
         return True, Seg()
     if g == 'std::vec::Vec::reserve':
         return True, Tuple([])
+    if g in ('std::vec::Vec::as_slice', 'std::vec::Vec::as_mut_slice', '<std::vec::Vec as std::ops::Deref>::deref', '<std::vec::Vec as std::ops::DerefMut>::deref_mut',
+             '<std::vec::Vec as std::convert::AsRef>::as_ref', '<std::vec::Vec as std::borrow::Borrow>::borrow') and isinstance(deref(a[0]), Seg):
+        return True, VecView(deref(a[0]), 0, None)
     if g == 'std::vec::Vec::len':
         return True, deref(a[0]).length()
     if g == 'std::vec::Vec::is_empty':
